@@ -9,6 +9,7 @@ G_UNITS = {
                "HelperAttributeForCompareOp::push_bounds_to", "HelperAttributesForCompareOp::push_bounds", "DeriveEntry::push_bounds_to",
                "DeriveEntry::push_bounds_to_with", "HelperAttributes::push_bounds_to", "HelperAttributes::push_bounds_to_without_helper",
                "HelperAttributes::push_bounds_to_raw", "FieldEntry::push_bounds_to", "CompareOp::is_effects_to"],
+    "cmp_bodies": ["build_partial_eq_expr", "build_eq_expr", "build_partial_ord_expr", "build_ord_expr", "build_hash_expr"],
     "builders": ["build_copy_for_struct", "build_copy_for_enum", "build_clone_for_struct", "build_clone_for_enum", "build_debug_expr",
                  "build_debug_for_struct", "build_debug_for_enum", "build_default_ctor_args"],
 }
